@@ -100,6 +100,9 @@ pub fn name_variants() -> Vec<(String, Vec<u8>)> {
         ("name with Universal value starting with U+FEFF".into(), seq(&[set_of(&[atv(&[2, 5, 4, 10], T_UNIVERSALSTR, &[0, 0, 0xfe, 0xff, 0, 0, 0, 0x41])])])),
         ("name with UTF8 value starting with U+FEFF".into(), seq(&[set_of(&[atv(&[2, 5, 4, 3], T_UTF8, "\u{feff}AB".as_bytes())])])),
         ("name with BMP value U+FEFF in the middle and at the end".into(), seq(&[set_of(&[atv(&[2, 5, 4, 3], T_BMP, &[0, 0x41, 0xfe, 0xff, 0, 0x42, 0xfe, 0xff])])])),
+        ("name with BMP value ending in U+0000".into(), seq(&[set_of(&[atv(&[2, 5, 4, 3], T_BMP, &[0, 0x41, 0, 0x42, 0, 0])])])),
+        ("name with Universal value starting with U+0000, UTF8 value ending in U+0000".into(), seq(&[set_of(&[atv(&[2, 5, 4, 10], T_UNIVERSALSTR, &[0, 0, 0, 0, 0, 0, 0, 0x41])]), set_of(&[atv(&[2, 5, 4, 3], T_UTF8, b"cd\0")])])),
+        ("name with IA5 value ending in CR LF, Printable value ending in a blank".into(), seq(&[set_of(&[atv(&[2, 5, 4, 3], T_IA5, b"ab\r\n")]), set_of(&[atv(&[2, 5, 4, 10], T_PRINTABLE, b"Org ")])])),
         ("name with NumericString value".into(), seq(&[set_of(&[atv(&[2, 5, 4, 5], 18, b"12345")])])),
         ("name with invalid UTF8".into(), seq(&[set_of(&[atv(&[2, 5, 4, 3], T_UTF8, &[0xff, 0xfe])])])),
         ("name with BMP odd length".into(), seq(&[set_of(&[atv(&[2, 5, 4, 3], T_BMP, &[0, 65, 0])])])),
@@ -150,6 +153,41 @@ pub fn off_alphabet_names() -> Vec<(String, Vec<u8>)> {
         for (vn, tag, bytes) in &values {
             v.push((format!("{} = {}", tn, vn), seq(&[set_of(&[atv(t, *tag, bytes)])])));
             v.push((format!("O=ok, {} = {}", tn, vn), seq(&[set_of(&[atv(&[2, 5, 4, 10], T_UTF8, b"ok")]), set_of(&[atv(t, *tag, bytes)])])));
+        }
+    }
+    v
+}
+
+/// Well-formed names whose values carry, at either edge or in the middle, a character that text tools treat specially
+/// (NUL, blank, line break, DEL, dot, U+FEFF): it is part of the value like any other. 2 attribute types x 6 string
+/// types x 7 characters x 6 placements, filtered to each string type's alphabet.
+pub fn edge_value_names() -> Vec<(String, Vec<u8>)> {
+    let atv = |o: &[u64], tag: u32, v: &[u8]| seq(&[oid(o), string(tag, v)]);
+    let types: [(&str, &[u64]); 2] = [("CN", &[2, 5, 4, 3]), ("O", &[2, 5, 4, 10])];
+    let chars: [(&str, &str); 7] = [("NUL", "\u{0}"), ("blank", " "), ("LF", "\n"), ("CRLF", "\r\n"), ("DEL", "\u{7f}"), ("dot", "."), ("U+FEFF", "\u{feff}")];
+    let tags: [(&str, u32); 6] = [("UTF8", T_UTF8), ("Printable", T_PRINTABLE), ("IA5", T_IA5), ("Teletex", T_TELETEX), ("BMP", T_BMP), ("Universal", T_UNIVERSALSTR)];
+    let mut v = Vec::new();
+    for (tn, t) in types {
+        for (kn, tag) in tags {
+            for (cn, c) in chars {
+                for (pn, text) in [("alone", c.to_string()), ("twice", format!("{c}{c}")), ("leading", format!("{c}ab")), ("trailing", format!("ab{c}")), ("trailing twice", format!("ab{c}{c}")), ("inside", format!("a{c}b"))] {
+                    let ok = match tag {
+                        T_PRINTABLE => text.bytes().all(refmodel::der::is_printable_char),
+                        T_IA5 => text.is_ascii(),
+                        T_TELETEX => text.bytes().all(|b| (0x20..=0x7f).contains(&b)),
+                        _ => true,
+                    };
+                    if !ok {
+                        continue;
+                    }
+                    let bytes: Vec<u8> = match tag {
+                        T_BMP => text.encode_utf16().flat_map(|u| u.to_be_bytes()).collect(),
+                        T_UNIVERSALSTR => text.chars().flat_map(|ch| (ch as u32).to_be_bytes()).collect(),
+                        _ => text.as_bytes().to_vec(),
+                    };
+                    v.push((format!("{} {} with {} {}", tn, kn, cn, pn), seq(&[set_of(&[atv(&[2, 5, 4, 11], T_UTF8, b"unit")]), set_of(&[atv(t, tag, &bytes)])])));
+                }
+            }
         }
     }
     v
